@@ -118,3 +118,10 @@ Theorem C01_read_until_is_source :
        any_run done read_ok nb_nil ms = ru_expected false false done read_ok nb_nil (existsb (fun x => x) ms).
 Proof. split; [exact read_until_is_source | exact read_until_any_is_source]. Qed.
 Print Assumptions C01_read_until_is_source.
+
+(* Channel.read / Read / ReadAll as translated (the whole trace of a round compared with the model's):
+   what a read delivers: the chunk normalised (carriage returns removed, then escape sequences when it has an ESC), enqueued, logged — one round of the read loop for all 512 combinations of what it can meet; Read and ReadAll *)
+From Scrapli Require Import ChanReadSrc.
+Theorem C01_chan_read_round_is_source : chan_read_table_ok = true.
+Proof. exact chan_read_round_is_source. Qed.
+Print Assumptions C01_chan_read_round_is_source.
